@@ -2,9 +2,11 @@
 """seed_store.py <id> <A|B>: after seed_vet.sh, store a vetted seeded change under /verif/seeded/<ID>-<A|B>/"""
 import json, os, re, shutil, sys
 pid, ab = sys.argv[1], sys.argv[2]
-src = "/tmp/seed_%s_out" % pid
-log = open("/var/tmp/vet_%s%s.log" % (pid, ab), errors="replace").read()
-dst = "/verif/seeded/%s-%s" % (pid.upper(), ab)
+R = os.environ.get("SEED_ROUND", "")
+src = "/tmp/seed%s_%s_out" % (R, pid)
+log = open("/var/tmp/vet%s_%s%s.log" % (R, pid, ab), errors="replace").read()
+# round 2 changes are stored as <ID>-C / <ID>-D
+dst = "/verif/seeded/%s-%s" % (pid.upper(), ab if not R else {"A": "C", "B": "D"}[ab])
 with_exit = re.search(r"demo_with_change_exit=(\d+)", log)
 without_exit = re.search(r"demo_without_change_exit=(\d+)", log)
 suite_ok = "51 passed | 0 failed" in log
@@ -12,7 +14,7 @@ if not (with_exit and without_exit and with_exit.group(1) != "0" and without_exi
     print("NOT KEPT: verification failed", with_exit and with_exit.group(1), without_exit and without_exit.group(1), suite_ok)
     sys.exit(1)
 os.makedirs(dst, exist_ok=True)
-rebased = "/var/tmp/rebased_%s%s.diff" % (pid, ab)
+rebased = "/var/tmp/rebased%s_%s%s.diff" % (R, pid, ab)
 orig = os.path.join(src, "mutant%s.diff" % ab)
 if os.path.exists(rebased):
     # patch.diff applies to /repo's HEAD at the time of vetting; the agent's diff (older base) is kept next to it when it differs
@@ -37,7 +39,7 @@ for line in log.splitlines():
         if m: checks[cur]["verdict"] = m.group(1)
 meta_out = {
     "breaks_property": pid.upper(),
-    "origin": "independent sub-agent with its own scratch worktree of /repo, given only the property text",
+    "origin": "independent sub-agent with its own scratch worktree of /repo, given only the property text" + (" and one-line descriptions of the two round-1 changes to avoid" if R else ""),
     "agent_description": meta,
     "verified_by_me": {
         "applies_to": "repo HEAD at the time of vetting (%s); patch.diff = the agent's change 3-way merged onto that HEAD, single header re-joined; vetted on a scratch copy under /var/tmp" % os.popen("git -C /repo log --oneline | head -1").read().strip(),
